@@ -133,6 +133,27 @@ def e2e_two(q1, q2, p, rows):
     return "ev_preagg_r" in sql_r, dbutil.canon_rows(layer.conn.execute(sql_r).fetchall()), dbutil.canon_rows(layer.conn.execute(sql_b).fetchall()), sql_r
 
 
+def e2e_second_dim(q, p, rows):
+    """TWO time dimensions in one query at the same granularity q: the rollup's own time dimension (stored at p) first, a second one that the rollup carries as a plain
+    dimension last.  -> (routed?, routed rows, base rows, routed sql)"""
+    from sidemantic import Dimension, Metric, Model
+    from sidemantic.core.pre_aggregation import PreAggregation
+    layer = dbutil.fresh_layer()
+    layer.conn.execute("create table ev(id bigint, ts timestamp, amt bigint)")
+    layer.conn.executemany("insert into ev values (?, ?, ?)", [(i, dbutil.us_to_ts(t), a) for i, (t, a) in enumerate(rows)])
+    model = Model(name="ev", table="ev", primary_key="id",
+                  dimensions=[Dimension(name="ts", type="time", granularity="hour", sql="ts"), Dimension(name="shipped", type="time", granularity="hour", sql="ts + INTERVAL 5 DAY")],
+                  metrics=[Metric(name="total", agg="sum", sql="amt"), Metric(name="n", agg="count")],
+                  pre_aggregations=[PreAggregation(name="r", measures=["total", "n"], dimensions=["shipped"], time_dimension="ts", granularity=p)])
+    layer.add_model(model)
+    pre = model.pre_aggregations[0]
+    layer.conn.execute("create table %s as %s" % (pre.get_table_name("ev"), pre.generate_materialization_sql(model)))
+    kw = dict(metrics=["ev.total", "ev.n"], dimensions=["ev.ts__" + q, "ev.shipped__" + q])
+    sql_r = layer.compile(use_preaggregations=True, **kw)
+    sql_b = layer.compile(use_preaggregations=False, **kw)
+    return "ev_preagg_r" in sql_r, dbutil.canon_rows(layer.conn.execute(sql_r).fetchall()), dbutil.canon_rows(layer.conn.execute(sql_b).fetchall()), sql_r
+
+
 def edited_rollup(q, p1, p2, rows, how):
     """history: a rollup declared at p1 answers a query (whatever is remembered is remembered now), then its granularity is edited to p2 -- in place, or by
     replacing it with model_copy(update=...) as configuration reloads do -- and the table rebuilt; the same query again.  Returns (routed, routed_rows, base_rows)."""
@@ -285,6 +306,22 @@ def run(c):
                 if routed and not (py_compatible(q1, p) and py_compatible(q2, p)):
                     c.notes.append("routed although _is_granularity_compatible refuses one of (%s, %s) on %s" % (q1, q2, p))
     evals += twos
+    # 5a'. two DIFFERENT time dimensions at the same granularity, the rollup's own first: routed only if the rollup's granularity serves it, and then with the same rows
+    seconds = 0
+    for p in NAMES:
+        for q in NAMES:
+            try:
+                routed, rr, rb, sql_r = e2e_second_dim(q, p, rows2)
+            except Exception as e:
+                c.violation("a query at %s over two time dimensions on a %s rollup fails: %s" % (q, p, str(e)[:120]), {"kind": "second_dim", "q": q, "p": p, "rows": rows2})
+                continue
+            seconds += 1
+            if routed and rr != rb:
+                c.violation("a query asking for two time dimensions at %s is routed to a %s rollup and returns different rows than the base table" % (q, p),
+                            {"kind": "second_dim", "q": q, "p": p, "rows": rows2, "routed_sql": sql_r, "differing_rows": [x for x in rr if x not in rb][:3] + [x for x in rb if x not in rr][:3]})
+            if routed and not py_compatible(q, p):
+                c.notes.append("two time dimensions at %s routed to a %s rollup although _is_granularity_compatible refuses the pair" % (q, p))
+    evals += seconds
     # 5b. the rollup's granularity is edited after it has answered a query: the verdict must be the one for the NEW granularity
     edits = 0
     rows = e2e_rows(c.rng)
